@@ -438,6 +438,7 @@ func (p c10) run(c *core.C, t *core.T, cs c10Case) {
 	if len(cs.Steer) > 0 {
 		r = core.NewSteered(cs.Steer, "c10", cs.Kind)
 	}
+	p.history(c, cs.Seed)
 	switch cs.Kind {
 	case "dsc":
 		p.dsc(c, t, r)
@@ -456,6 +457,67 @@ func (p c10) run(c *core.C, t *core.T, cs c10Case) {
 	case "dpkg-source":
 		p.dpkgSource(c, t, r)
 	}
+}
+
+// history: what a document decodes to must not depend on which kinds of document the process decoded before.
+// The same field name is written differently in different kinds (Binary: blanks in a .changes, commas in a .dsc
+// and in Sources; Architecture: a list in a .dsc, one value in Packages), so every case first decodes one tiny
+// document of three kinds in an order taken from the seed - in a fresh worker process these are the first
+// documents the library sees - and each must come out as written.
+func (p c10) history(c *core.C, seed uint64) {
+	const sum = "d41d8cd98f00b204e9800998ecf8427e"
+	docs := [3]func() string{
+		func() string {
+			text := "Format: 1.8\nSource: hist\nBinary: hist-a hist-b hist-c\nArchitecture: source amd64 all\nVersion: 1.0-1\nFiles:\n " + sum + " 0 utils optional hist_1.0-1.dsc\n"
+			got, err := control.ParseChanges(bufio.NewReader(strings.NewReader(text)), "/h/hist_1.0-1_amd64.changes")
+			if err != nil {
+				return fmt.Sprintf("ParseChanges(%q): %v", text, err)
+			}
+			if !reflect.DeepEqual(got.Binaries, []string{"hist-a", "hist-b", "hist-c"}) || len(got.Architectures) != 3 || len(got.Files) != 1 || got.Files[0].Filename != "hist_1.0-1.dsc" {
+				return fmt.Sprintf("ParseChanges(%q): Binaries %q, %d architectures, Files %+v", text, got.Binaries, len(got.Architectures), got.Files)
+			}
+			return ""
+		},
+		func() string {
+			text := "Format: 3.0 (quilt)\nSource: hist\nBinary: hist-a, hist-b,\n hist-c\nArchitecture: any all\nVersion: 1.0-1\nUploaders: A <a@example.org>, B <b@example.org>\nFiles:\n " + sum + " 0 hist_1.0.orig.tar.gz\n"
+			got, err := control.ParseDsc(bufio.NewReader(strings.NewReader(text)), "/h/hist_1.0-1.dsc")
+			if err != nil {
+				return fmt.Sprintf("ParseDsc(%q): %v", text, err)
+			}
+			if !reflect.DeepEqual(got.Binaries, []string{"hist-a", "hist-b", "hist-c"}) || len(got.Architectures) != 2 || !reflect.DeepEqual(got.Uploaders, []string{"A <a@example.org>", "B <b@example.org>"}) || len(got.Files) != 1 || got.Files[0].Filename != "hist_1.0.orig.tar.gz" {
+				return fmt.Sprintf("ParseDsc(%q): Binaries %q, %d architectures, Uploaders %q, Files %+v", text, got.Binaries, len(got.Architectures), got.Uploaders, got.Files)
+			}
+			return ""
+		},
+		func() string {
+			text := "Package: hist\nBinary: hist-a, hist-b\nVersion: 1.0-1\nArchitecture: any all\nDirectory: pool/main/h/hist\nFiles:\n " + sum + " 0 hist_1.0-1.dsc\n"
+			got, err := control.ParseSourceIndex(bufio.NewReader(strings.NewReader(text)))
+			if err != nil || len(got) != 1 {
+				return fmt.Sprintf("ParseSourceIndex(%q): %d entries, error %v", text, len(got), err)
+			}
+			if !reflect.DeepEqual(got[0].Binaries, []string{"hist-a", "hist-b"}) || len(got[0].Architecture) != 2 || len(got[0].Files) != 1 || got[0].Files[0].Filename != "hist_1.0-1.dsc" {
+				return fmt.Sprintf("ParseSourceIndex(%q): Binaries %q, Architecture %v, Files %+v", text, got[0].Binaries, got[0].Architecture, got[0].Files)
+			}
+			return ""
+		},
+	}
+	orders := [6][3]int{{0, 1, 2}, {0, 2, 1}, {1, 0, 2}, {1, 2, 0}, {2, 0, 1}, {2, 1, 0}}
+	o := orders[seed%6]
+	for _, k := range o {
+		if msg := docs[k](); msg != "" {
+			c.Failf("%s (the %s document of the three decoded, in the order %v, before the case proper; each decodes correctly in a fresh process)", msg, []string{"first", "second", "third"}[posOf(o[:], k)], o)
+		}
+	}
+	c.Cover(fmt.Sprintf("history:kinds-decoded-in-order-%d%d%d", o[0], o[1], o[2]))
+}
+
+func posOf(l []int, v int) int {
+	for i, x := range l {
+		if x == v {
+			return i
+		}
+	}
+	return -1
 }
 
 // dpkgSource (thorough): a source tree is written from a model and the REAL dpkg-source -b
